@@ -46,7 +46,7 @@ def run(ctx):
             _, cid, rest = line.rstrip("\n").split(" ", 2)
             specs[cid] = rest
     rc, out = sh("%s < %s" % (driver, ops), timeout=3000)
-    evals = skipped = judge_bad = capq_cmp = capq_bad = 0
+    evals = skipped = judge_bad = capq_cmp = capq_bad = ver_cmp = ver_bad = 0
     distinct = set()
     samples = []
     kinds = {}
@@ -94,6 +94,16 @@ def run(ctx):
                           fingerprint={"corr": "capq"}, found_input=False)
         if compiled:
             capq_cmp += 1
+        if "verif" in kv:
+            ver_cmp += 1
+            if kv["verif"] != "agree":
+                ver_bad += 1
+                ctx.violation("corr", "the Sat-verifier (Verify.lean) and the enumeration matchAll disagree about a real match",
+                              {"case": cid, "spec": spec, "query": qtext, "result": kv,
+                               "correspondence": "TsVerif.C05.verifyAnywhere vs membership in TsVerif.C05.matchAll"},
+                              fingerprint={"corr": "verifier"}, found_input=False)
+        if kv.get("verified") == "true":
+            dist["wide_quantified_cases_verified"] = dist.get("wide_quantified_cases_verified", 0) + 1
         if kv.get("qempty") == "true":
             dist["quantified_pattern_with_model_matches_but_no_real_match"] = dist.get("quantified_pattern_with_model_matches_but_no_real_match", 0) + 1
         if kv["judge"] == "ok" or kv["judge"].startswith("ok "):
@@ -104,7 +114,8 @@ def run(ctx):
         lang = cid.rsplit("-", 1)[0]
         ctx.violation("judge", "C05 %s: query %r — %s" % (kind, qtext[:160], kv["judge"][:200]),
                       {"case": cid, "spec": spec, "query": qtext, "result": kv},
-                      fingerprint={"kind": kind, "optional": kv.get("optional", "-"), "extras": kv.get("extras", "-"), "lang": lang})
+                      fingerprint={"kind": kind, "optional": kv.get("optional", "-"), "extras": kv.get("extras", "-"), "super": kv.get("super", "-"), "lang": lang})
+    ctx.oblige("corr:verifyAnywhere=membership-in-matchAll(on the real matches)", ver_bad == 0, "%d of %d cases differ" % (ver_bad, ver_cmp))
     ctx.oblige("corr:capQItem=ts_query_capture_quantifier_for_id", capq_bad == 0, "%d of %d differ" % (capq_bad, capq_cmp))
     ctx.coverage.update({
         "evaluations": evals, "distinct_nontrivial": len(distinct),
